@@ -44,8 +44,8 @@ theorem C16_send_sync_bounds :
     unsafeImplSendMiniVec = .send ∧ unsafeImplSyncMiniVec = .sync ∧
     unsafeImplSendIntoIter = .send ∧ unsafeImplSyncIntoIter = .sync ∧
     unsafeImplSendDrain = .send ∧ unsafeImplSyncDrain = .sync ∧
-    unsafeImplSendSplice ≠ .unbounded ∧ unsafeImplSyncSplice ≠ .unbounded ∧
-    unsafeImplSendDrainFilter ≠ .unbounded ∧ unsafeImplSyncDrainFilter ≠ .unbounded := by
+    unsafeImplSendSplice = .absent ∧ unsafeImplSyncSplice = .absent ∧
+    unsafeImplSendDrainFilter = .absent ∧ unsafeImplSyncDrainFilter = .absent := by
   decide
 
 /-- no public method other than `leak` declares a lifetime parameter of its own: a reference a method passes to a
